@@ -421,10 +421,22 @@ func (m *Muxer) sender() {
 		}
 	}
 
-	// if we broke out of the loop, consume all packets so tubes can still close
-	for range m.sendQueue {
-	}
-	for range m.prioritySendQueue {
+	// if we broke out of the loop, consume all packets so tubes can still close.
+	// Both queues are drained together: a tube may be blocked handing a
+	// retransmission to prioritySendQueue while holding its lifecycle lock, and
+	// sendQueue is only closed after every tube has closed.
+	sendQueue, prioritySendQueue := m.sendQueue, m.prioritySendQueue
+	for sendQueue != nil || prioritySendQueue != nil {
+		select {
+		case _, more := <-sendQueue:
+			if !more {
+				sendQueue = nil
+			}
+		case _, more := <-prioritySendQueue:
+			if !more {
+				prioritySendQueue = nil
+			}
+		}
 	}
 
 	m.log.WithField("error", err).Debug("muxer sender stopped")
